@@ -429,6 +429,76 @@ func batchScenario() instance {
 	return in
 }
 
+// batchScenario2: two issuers per token type; the requests are aimed at the SECOND issuer of
+// each type (the one that is not first in the batch issuer's list).
+func batchScenario2() instance {
+	kbA, kbB := px.OPRFKeyBytes(oprf.SuiteP384, 0), px.OPRFKeyBytes(oprf.SuiteP384, 1)
+	ref1 := px.NewW1FromBytes(kbB)
+	ref2 := px.NewW2(1)
+	chal := fill("chal", 32)
+	type pair struct {
+		s1   type1.BasicPrivateTokenRequestState
+		s2   type2.BasicPublicTokenRequestState
+		wire []byte
+	}
+	mk := func(i int) pair {
+		s1, err := ref1.Create(chal, fill(fmt.Sprintf("b%d-1", i), 32), nil)
+		must(err)
+		s2, err := ref2.Create(chal, fill(fmt.Sprintf("b%d-2", i), 32), nil, nil)
+		must(err)
+		br, err := batched.NewBasicClient().CreateTokenRequest([]tokens.TokenRequestWithDetails{s1.Request(), s2.Request()})
+		must(err)
+		return pair{s1, s2, append([]byte{}, br.Marshal()...)}
+	}
+	p0, p1 := mk(0), mk(1)
+	bi := batched.NewBasicBatchedIssuer(
+		issuer1{type1.NewBasicPrivateIssuer(px.OPRFKeyFromBytes(oprf.SuiteP384, kbA))}, issuer1{type1.NewBasicPrivateIssuer(px.OPRFKeyFromBytes(oprf.SuiteP384, kbB))},
+		issuer2{type2.NewBasicPublicIssuer(px.FreshRSA(0))}, issuer2{type2.NewBasicPublicIssuer(px.FreshRSA(1))})
+	q0, q1 := new(batched.BatchedTokenRequest), new(batched.BatchedTokenRequest)
+	q0.Unmarshal(p0.wire)
+	q1.Unmarshal(p1.wire)
+	var r0, r1 []byte
+	var e0, e1 error
+	in := instance{}
+	in.bodies = []func(){
+		func() { r0, e0 = bi.EvaluateBatch(q0) },
+		func() { r1, e1 = bi.EvaluateBatch(q1) },
+	}
+	in.check = func() (string, error) {
+		if e0 != nil || e1 != nil {
+			return "", fmt.Errorf("EvaluateBatch failed: %v %v", e0, e1)
+		}
+		for i, x := range []struct {
+			p pair
+			r []byte
+		}{{p0, r0}, {p1, r1}} {
+			es, err := batched.UnmarshalBatchedTokenResponses(x.r)
+			if err != nil || len(es) != 2 {
+				return "", fmt.Errorf("batch response %d does not decode to two entries: %v", i, err)
+			}
+			if len(es[0]) == 0 || len(es[1]) == 0 {
+				return "", fmt.Errorf("batch %d: an entry is absent although a configured issuer holds its key", i)
+			}
+			t1, err := x.p.s1.FinalizeToken(es[0])
+			if err != nil {
+				return "", fmt.Errorf("batch %d type-1 entry does not finalize: %v", i, err)
+			}
+			if err := px.VerifyOPRFToken(oprf.SuiteP384, kbB, t1.Marshal()); err != nil {
+				return "", fmt.Errorf("batch %d type-1 token invalid: %v", i, err)
+			}
+			t2, err := x.p.s2.FinalizeToken(es[1])
+			if err != nil {
+				return "", fmt.Errorf("batch %d type-2 entry does not finalize: %v", i, err)
+			}
+			if err := px.VerifyRSAToken(&ref2.Key.PublicKey, t2.Marshal()); err != nil {
+				return "", fmt.Errorf("batch %d type-2 token invalid: %v", i, err)
+			}
+		}
+		return "ok", nil
+	}
+	return in
+}
+
 // ---- ECDSA ----
 
 func ecdsaScenario(variant int) func() instance {
@@ -505,9 +575,10 @@ func ed25519Scenario(variant int) func() instance {
 		m0, m1 := []byte("message zero"), []byte("message one")
 		presig := stded.Sign(stdPriv, m0)
 		var s0, s1 []byte
-		var vok bool
-		var bpub ed25519.PublicKey
-		var e3 error
+		var vok, vok2 bool
+		var bpub, u1, u2 ed25519.PublicKey
+		var e3, ue1, ue2 error
+		blindC := fill("edblind2", 32)
 		in := instance{}
 		switch variant {
 		case 0:
@@ -515,6 +586,23 @@ func ed25519Scenario(variant int) func() instance {
 				func() { s0 = ed25519.Sign(priv, m0) },
 				func() { s1 = ed25519.BlindKeySign(priv, m1, blindA[:32:32]) },
 				func() { vok = ed25519.Verify(pub, m0, presig) },
+			}
+		case 2:
+			// two verifications and one signature: the verifier's table is used for the first time
+			// by two goroutines at once
+			in.bodies = []func(){
+				func() { vok = ed25519.Verify(pub, m0, presig) },
+				func() { vok2 = ed25519.Verify(pub, m0, presig) },
+				func() { s0 = ed25519.Sign(priv, m0) },
+			}
+		case 3:
+			// key un-blinding by two goroutines (each with its own copies of key, blind, context)
+			bk1, _ := ed25519.BlindPublicKeyWithContext(pub, append([]byte{}, blind...)[:32:32], []byte("ctx one"))
+			bk2, _ := ed25519.BlindPublicKeyWithContext(pub, append([]byte{}, blindC...)[:32:32], []byte("ctx two"))
+			in.bodies = []func(){
+				func() { u1, ue1 = ed25519.UnblindPublicKeyWithContext(bk1, blindA[:32:32], []byte("ctx one")) },
+				func() { u2, ue2 = ed25519.UnblindPublicKeyWithContext(bk2, blindC[:32:32], []byte("ctx two")) },
+				func() { bpub, e3 = ed25519.BlindPublicKey(pub, blindB[:32:32]) },
 			}
 		default:
 			in.bodies = []func(){
@@ -524,6 +612,25 @@ func ed25519Scenario(variant int) func() instance {
 			}
 		}
 		in.check = func() (string, error) {
+			if variant == 2 {
+				if !vok || !vok2 {
+					return "", fmt.Errorf("concurrent Verify rejected a valid signature")
+				}
+				if !bytes.Equal(s0, presig) {
+					return "", fmt.Errorf("concurrent Sign differs from the standard library's signature")
+				}
+				return "ok", nil
+			}
+			if variant == 3 {
+				if ue1 != nil || ue2 != nil || !bytes.Equal(u1, pub) || !bytes.Equal(u2, pub) {
+					return "", fmt.Errorf("concurrent UnblindPublicKeyWithContext did not recover the key (%v %v)", ue1, ue2)
+				}
+				rb, _ := ed25519.BlindPublicKey(pub, append([]byte{}, blind...)[:32:32])
+				if e3 != nil || !bytes.Equal(bpub, rb) {
+					return "", fmt.Errorf("concurrent BlindPublicKey differs from the sequential result (%v)", e3)
+				}
+				return "ok", nil
+			}
 			if !vok {
 				return "", fmt.Errorf("concurrent Verify rejected a valid signature")
 			}
@@ -778,4 +885,7 @@ var scenarios = []scenario{
 	{"ecdsa-blindpublickey-blindkeysign-verify", ecdsaScenario(1)},
 	{"ed25519-sign-blindkeysign-verify", ed25519Scenario(0)},
 	{"ed25519-blindpublickey-blindkeysign-verify", ed25519Scenario(1)},
+	{"ed25519-verify-verify-sign", ed25519Scenario(2)},
+	{"ed25519-unblind-unblind-blindpublickey", ed25519Scenario(3)},
+	{"batch-two-issuers-per-type", batchScenario2},
 }
